@@ -172,6 +172,11 @@ class CaseBase {
   // End-of-run oracles over recorded state: runs outside the simulator after everything is quiescent.
   virtual void Finish() {
   }
+  // Optional tag appended to every violation class of this case ("CLASS:tag"): keeps the minimiser from drifting to a
+  // different defect that happens to show the same generic class (e.g. DEADLOCK of another lock type).
+  virtual const char* ClassTag() const {
+    return nullptr;
+  }
   // Max hook calls (choice points) before the run is declared NO_PROGRESS.
   virtual std::uint64_t StepBudget() const {
     return 400000;
